@@ -308,7 +308,8 @@ pub fn c08_cells(tier: Tier) -> Vec<Value> {
     }
     // boundary window sizes
     for ws in [65534u16, 65535] {
-        let lens: Vec<usize> = if tier == Tier::Quick { vec![5 * 8] } else { vec![5 * 8, 5 * 8 + 3, ws as usize * 8 + 1] };
+        // a short file (window never full) and one that fills the whole window
+        let lens: Vec<usize> = if tier == Tier::Quick { vec![5 * 8, ws as usize * 8 + 1] } else { vec![5 * 8, 5 * 8 + 3, ws as usize * 8 - 1, ws as usize * 8 + 1, (ws as usize + 2) * 8] };
         for len in lens {
             let mut cfg = base_cfg(Role::Sender, len, blk, ws);
             cfg.alpha = 2;
